@@ -129,7 +129,12 @@ pub fn run(ctx: &mut Ctx) {
         }
         let mut rng = Rng::new(ctx.case_seed(i));
         let nops = rng.range(6, 36);
-        let script = gen_script(&mut rng, FLAVOR, nops);
+        let mut script = gen_script(&mut rng, FLAVOR, nops);
+        if i % 2 == 1 {
+            // targeted family: edits arriving while a debounced diagnostic task is between its timer and its lock
+            script = gen_race_script(&mut rng, false, 500);
+            ctx.clause("family:race-with-debounce");
+        }
         for k in 0..3u64 {
             let mut s = script.clone();
             s.sched_seed = if k == 0 { 0 } else { rng.next_u64() | 1 };
